@@ -1,11 +1,100 @@
+/-
+C05 driver.  Case lines:
+  tbs  NAME CLS TYPE ALG LABELS ORIGTTL EXP INC TAG SIGNER REC*   → `ok HEX` | `err` | `panic …`
+  tbsold …same…                                                   → the same for the pre-repair model (Tbs.tbsPreFix; regression only)
+  spec NAME CLS TYPE ALG LABELS ORIGTTL EXP INC TAG SIGNER REC*   → `some HEX` | `none`   (Spec.signedData)
+  rdata TYPE RDATA                                                    → `KEYHEX CANONHEX|none`
+  detname NAME LABELS                                              → outcome of determine_name
+  class NAME CLS TYPE … REC*                                       → `dup ttl case` flags of the collected RRset
+REC   = NAME/TYPE/CLS/TTL/RDATA
+RDATA = a,HEX | aaaa,HEX | ns,NAME | cname,NAME | ptr,NAME | mx,PREF,NAME
+      | soa,M,R,SERIAL,REFRESH,RETRY,EXPIRE,MINIMUM | srv,PRIO,WEIGHT,PORT,NAME | txt,HEX;HEX;…
+      | op,RAWHEX,KEYHEX,CANONHEX|!
+-/
 import HickoryVerif.Drv.Proto
+import HickoryVerif.Model.Tbs
+import HickoryVerif.Spec.Rfc4034
 
 namespace HickoryVerif.Drv.C05
-open HickoryVerif HickoryVerif.Drv
+open HickoryVerif HickoryVerif.Drv HickoryVerif.Tbs
 
 abbrev State := Unit
 def init : State := ()
 
-def step (s : State) (_toks : List String) : State × String := (s, "bad-op")
+def parseStrings (s : String) : Option (List Bytes) :=
+  if s.isEmpty then some [] else (s.splitOn ";").mapM parseHex
+
+def parseRData (tok : String) : Option RData :=
+  match tok.splitOn "," with
+  | ["a", h] => (parseHex h).map .a
+  | ["aaaa", h] => (parseHex h).map .aaaa
+  | ["ns", n] => (parseName n).map .ns
+  | ["cname", n] => (parseName n).map .cname
+  | ["ptr", n] => (parseName n).map .ptr
+  | ["mx", p, n] => do pure (.mx (← p.toNat?) (← parseName n))
+  | ["soa", m, r, s, rf, rt, e, mi] => do
+    pure (.soa (← parseName m) (← parseName r) (← s.toNat?) (← rf.toNat?) (← rt.toNat?) (← e.toNat?)
+      (← mi.toNat?))
+  | ["srv", p, w, po, t] => do
+    pure (.srv (← p.toNat?) (← w.toNat?) (← po.toNat?) (← parseName t))
+  | ["txt", ss] => (parseStrings ss).map .txt
+  | ["op", _raw, k, c] => do
+    let k ← parseHex k
+    if c == "!" then pure (.opaque k none) else pure (.opaque k (some (← parseHex c)))
+  | _ => none
+
+def parseRecord (tok : String) : Option Record :=
+  match tok.splitOn "/" with
+  | [n, t, c, ttl, rd] => do
+    pure { name := ← parseName n, rtype := ← t.toNat?, cls := ← c.toNat?, ttl := ← ttl.toNat?,
+           data := ← parseRData rd }
+  | _ => none
+
+structure Case where
+  name : Name
+  cls : Nat
+  input : SigInput
+  records : List Record
+
+def parseCase (toks : List String) : Option Case :=
+  match toks with
+  | n :: c :: t :: alg :: lab :: ottl :: exp :: inc :: tag :: signer :: recs => do
+    let input : SigInput := {
+      typeCovered := ← t.toNat?, algorithm := ← alg.toNat?, numLabels := ← lab.toNat?,
+      originalTtl := ← ottl.toNat?, expiration := ← exp.toNat?, inception := ← inc.toNat?,
+      keyTag := ← tag.toNat?, signer := ← parseName signer }
+    pure { name := ← parseName n, cls := ← c.toNat?, input, records := ← recs.mapM parseRecord }
+  | _ => none
+
+def handle (toks : List String) : Option String :=
+  match toks with
+  | "tbs" :: rest => do
+    let c ← parseCase rest
+    pure (showOutcome toHex (tbsImpl c.name c.cls c.input c.records))
+  | "tbsold" :: rest => do
+    -- model of TBS::new before the repair /repo 628570a (regression only)
+    let c ← parseCase rest
+    pure (showOutcome toHex (tbsPreFix c.name c.cls c.input c.records))
+  | "spec" :: rest => do
+    let c ← parseCase rest
+    let rrset := collect c.name c.cls c.input c.records
+    match Spec.signedData c.input c.name c.cls (rrset.map (·.data)) with
+    | some b => pure ("some " ++ toHex b)
+    | none => pure "none"
+  | "class" :: rest => do
+    let c ← parseCase rest
+    let rrset := collect c.name c.cls c.input c.records
+    pure (showBool (hasDup rrset) ++ " " ++ showBool (!sameTtl rrset) ++ " " ++
+      showBool (!rdataCaseCanonical rrset))
+  | ["rdata", _ty, rd] => do
+    let d ← parseRData rd
+    pure (toHex (toBytes d) ++ " " ++ (match canonBytes d with | some b => toHex b | none => "none"))
+  | ["detname", n, k] => do
+    let n ← parseName n; let k ← k.toNat?
+    pure (showOutcome showName (determineName n k))
+  | _ => none
+
+def step (s : State) (toks : List String) : State × String :=
+  (s, (handle toks).getD "bad-op")
 
 end HickoryVerif.Drv.C05
